@@ -11,7 +11,7 @@ from . import c06
 
 PID = "C16"
 LEVEL = "other"
-LEAVES, SPECIAL = c06.LEAVES, c06.SPECIAL
+LEAVES, SPECIAL = {**c06.LEAVES, "X2": ("a", "b", "c")}, c06.SPECIAL  # X2: another leaf object that *equals* X (same name, other rows)
 
 
 def _nested(tier):
@@ -28,6 +28,10 @@ def _nested(tier):
     # one relation object in two places of the tree: a verdict about one occurrence must not leak to the other
     for doomed_side in (("slice", X, 0, 0), ("sel", X, ("plit", False)), ("sel", X, K), ("slice", X, "$k1s", "$k1s")):
         progs += [("chain", doomed_side, X), ("chain", X, doomed_side), ("chain", ("chain", doomed_side, X), Y), ("dedup", ("chain", doomed_side, X))]
+    # two leaves that compare equal (same engine, name and columns) with different contents: a verdict about one is not one about the other
+    X2 = ("leaf", "X2")
+    progs += [("chain", X, X2), ("chain", X2, X), ("chain", ("sel", X, K), X2), ("dedup", ("chain", X2, ("sel", X, K))), ("chain", ("slice", X, 0, 1), ("slice", X2, 0, 1)),
+              ("chain", ("chain", X2, D0), X)]
     G = ("gt", ("ref", "b"), ("lit", "$k1"))
     F, T = ("plit", False), ("plit", True)
     preds = [("or", G, F), ("or", G, ("not", T)), ("and", ("or", G, F), K), ("not", ("or", G, F)), ("or", F, G), ("and", K, ("or", F, F)),
@@ -63,6 +67,19 @@ def shapes(tier, seed):
     return out
 
 
+def _add_twin(env, eng, tab):
+    """Leaf X2: a second leaf object named "X" (iteration engine) bound to its own table."""
+    from lsst.daf.relation import LeafRelation, iteration
+
+    rel = LeafRelation(env.engines[eng], frozenset(env.tags[c] for c in LEAVES["X2"]), iteration.RowSequence([]), name="X", min_rows=0, max_rows=None)
+    env.leaves["X2"] = rel
+    env.tables["X2"] = tab
+    if not hasattr(env, "tables_by_id"):
+        env.tables_by_id = {}
+    env.tables_by_id[id(rel)] = tab
+    return rel
+
+
 def run_shape(shape, tier):
     from lsst.daf.relation import Diagnostics
 
@@ -78,6 +95,9 @@ def run_shape(shape, tier):
                 env.add_special_leaf(name, SPECIAL[name][0], eng, SPECIAL[name][1])
                 continue
             tab = common.sym_table(ctx, name, LEAVES[name], n, ordered=True)
+            if name == "X2":
+                _add_twin(env, eng, tab)
+                continue
             if shape["decl"] == "zero" and name == "X":
                 ctx.assume(tab.count() == 0)
                 add_abstract_leaf(env, name, LEAVES[name], eng, tab, min_rows=0, max_rows=0)
@@ -162,6 +182,11 @@ def concrete_check(prog, eng, rows, bind, with_executor, decl):
             env.add_special_leaf(name, SPECIAL[name][0], eng, SPECIAL[name][1])
             leafrows[name] = [{}] if SPECIAL[name][0] == "identity" else []
         else:
+            if name == "X2":
+                twin = _add_twin(env, eng, None)
+                leafrows["X2"] = rows[name]
+                leafrows[("id", id(twin))] = rows[name]
+                continue
             zero = decl == "zero" and name == "X"
             add_abstract_leaf(env, name, LEAVES[name], eng, None, min_rows=1 if decl == "some" else 0, max_rows=0 if zero else None)
             leafrows[name] = rows[name]
